@@ -8,6 +8,7 @@ CONSTANTS
   KsIdx = {2, 3, 4, 5, 10}
   TailLen = 1
   Variants = TRUE
+  Ks2 = 6
   ExtraKs = {2, 3}
 INVARIANTS CheckAndEmit
 CHECK_DEADLOCK FALSE
